@@ -182,6 +182,22 @@ CLAIMED["C04"] = dict(
          "preemption, real kernel sockets, SCTP, freely scheduled idle ticks. Two genuine defects found and fixed (no "
          "reassembly; unsynchronised take of the receive stream).")
 
+CLAIMED["C05"] = dict(
+    level="model_checking", technique=E3, design="6/C05",
+    text="Diameter.send_message/send_messages, put_message_into_send_queue, send_message_from_queue, the state-machine loop and "
+         "TcpConnection._run/read/write/_write/_set_selector_events_mask are re-compiled from the current source as coroutines on "
+         "stand-in Lock/Event/Queue/selector/socket objects. 1-2 submitter threads, the state-machine thread, the transport "
+         "thread and optionally a network thread (an inbound DWR or request arriving at an arbitrary moment, with the receive "
+         "worker) are scheduled by boolean solver variables; CrossHair enumerates every schedule within the preemption bound, at "
+         "synchronisation-operation granularity and with a preemption point before every statement of the send-path methods. "
+         "The stand-in socket accepts a stated pattern of partial writes. Oracle: the bytes accepted by the socket are an "
+         "interleaving of the submitted encodings and the expected DWA - each whole, once, per-submitter order kept - and no "
+         "lock stays held.",
+    note="Trusted: CrossHair, z3, stand-in primitives and scheduler (vf/cosched.py, vf/conode.py). Bounds: <= 2 submitters, <= 3 "
+         "messages, <= 1-2 (quick) / 4 (thorough) preemptions, K <= 64 decisions, partial-write patterns 7,1 / 1,30 / 5 / 3. "
+         "Outside: bytecode-level preemption, real sockets, SCTP, messages larger than the send buffer. Three genuine defects "
+         "found and fixed (duplicate on partial write, loss on read-event mask reset, lost wake-up deadlock).")
+
 CLAIMED["C06"] = dict(
     level="model_checking", technique=E1 + " (one-step inductive check against a reference transition function)", design="6/C06",
     text="For each (role, state) one tick of the real PeerStateMachine loop body is executed on a stand-in transport from a "
